@@ -73,7 +73,7 @@ def run(ctx):
     ctx.explanation, ctx.not_decided = EXPLANATION, NOT_DECIDED
     fo, nf = key_ops(ctx, 'Storage::filter_block')
     ro, nr = key_ops(ctx, 'Storage::rollback_to_block')
-    ctx.floor('C04.r1', 'batch operations in filter_block', nf, 14)
+    ctx.floor('C04.r1', 'batch operations in filter_block', nf, 8)   # 14 on the reviewed tree; writing the transaction record once per transaction instead of once per matched cell legitimately lowers it (seeded C03-6)
     ctx.floor('C04.r1', 'batch operations in rollback_to_block', nr, 6)
     for fam in sorted(fo['put']):
         if fam in ro['delete']:
